@@ -90,6 +90,7 @@ func Rapid(t testing.TB, quick, thorough int) {
 	}
 	must(flag.Set("rapid.checks", strconv.Itoa(N(quick, thorough))))
 	must(flag.Set("rapid.seed", strconv.FormatUint(SeedFor(t.Name()), 10)))
+	must(flag.Set("rapid.shrinktime", "12s"))
 }
 
 // RapidSteps sets the average number of t.Repeat actions.
